@@ -245,6 +245,10 @@ func parentOf(o *Op, path []int) *Sel {
 // selection list (needed for fragment type conditions and __typename).
 type typeResolver func(o *Op, path []int) string
 
+// membersOf gives the possible types of an abstract type (nil for object
+// types); set by the environment, used by the "members" reformulation.
+var membersOf func(typeName string) []string
+
 // sites enumerates every single reformulation applicable to o (an operation
 // without named fragments). Order: simplest kinds first.
 func sites(o *Op, parentType typeResolver) []Reform {
@@ -297,6 +301,18 @@ func sites(o *Op, parentType typeResolver) []Reform {
 				out = append(out, Reform{Kind: "typename", Path: p, I: len(list)})
 				// ... and under an alias (object and abstract parents, inside member fragments too)
 				out = append(out, Reform{Kind: "aliastypename", Path: p, I: len(list)})
+			}
+		}
+		// the fields selected directly on an abstract type moved into fragments on every possible type
+		if !isRoot && !isEntityList {
+			nf := 0
+			for _, s := range list {
+				if s.Kind == kField {
+					nf++
+				}
+			}
+			if nf > 0 && membersOf != nil && len(membersOf(parentType(o, path))) > 0 {
+				out = append(out, Reform{Kind: "members", Path: p})
 			}
 		}
 		for i, s := range list {
@@ -374,6 +390,30 @@ func apply(o *Op, r Reform, parentType typeResolver, nextID *int) *Op {
 		nl := append([]*Sel{}, list[:r.I]...)
 		nl = append(nl, w)
 		nl = append(nl, list[r.J:]...)
+		*lp = nl
+	case "members":
+		if len(r.Path) == 0 || membersOf == nil {
+			return nil
+		}
+		ms := membersOf(parentType(c, r.Path))
+		if len(ms) == 0 {
+			return nil
+		}
+		var fields, rest []*Sel
+		for _, s := range list {
+			if s.Kind == kField {
+				fields = append(fields, s)
+			} else {
+				rest = append(rest, s)
+			}
+		}
+		if len(fields) == 0 {
+			return nil
+		}
+		nl := append([]*Sel{}, rest...)
+		for _, m := range ms {
+			nl = append(nl, &Sel{Kind: kInline, TypeCond: m, Sel: cloneSels(fields)})
+		}
 		*lp = nl
 	case "typename", "aliastypename":
 		if len(r.Path) == 0 || len(list) == 0 {
